@@ -8,7 +8,7 @@ from props.C20 import ref_oracle
 THEOREMS = ['C02_split_range', 'C02_split_cost', 'C02_contract_limits', 'C02_transport_flows', 'C02_storage_recursion',
             'C02_holding_cost', 'C02_take_prorated', 'C02_portfolio_blocks',
             'C02_lp_to_reference', 'C02_reference_to_lp', 'C02_optimum_is_reference_optimum', 'C02_every_point_is_blocks',
-            'C02_transport_unit', 'C02_storage_unit', 'C02_contract_unit', 'C02_contract_takes_unit', 'C02_multi_unit', 'C02_generated_portfolio_under_theorems']
+            'C02_transport_unit', 'C02_storage_unit', 'C02_contract_unit', 'C02_contract_takes_unit', 'C02_multi_unit', 'C02_ext_transport_unit', 'C02_generated_portfolio_under_theorems']
 REF_NAMES = ['hypotheses of the instance theorems hold for every asset (unit_hyps)', 'asset names distinct', 'x has one entry per model variable',
              'EAO value = - textbook cost of the decoded solution', 'reported dispatch = textbook flows of the decoded solution',
              'textbook flows balance at every node and step']
@@ -43,7 +43,7 @@ def run(ctx):
     # ---- the composition theorems applied: portfolios made only of classes covered by the instance theorems (fine grid).  Coq evaluates
     # the hypotheses of the theorems on the model of the portfolio (so C02_optimum_is_reference_optimum speaks about it) and the textbook
     # program -- cost, flows, nodal balance -- on what the implementation returned
-    cov = gen.gen_many(ctx.seed, n // 2, dict(CFG, kinds={'SimpleContract': 2, 'Contract': 3, 'Transport': 2, 'Storage': 4, 'MultiCommodityContract': 2}, p_storage_price=0.2), 'c02t_')
+    cov = gen.gen_many(ctx.seed, n // 2, dict(CFG, kinds={'SimpleContract': 2, 'Contract': 3, 'Transport': 2, 'Storage': 4, 'MultiCommodityContract': 2, 'ExtendedTransport': 2}, p_storage_price=0.2), 'c02t_')
     pool = [sp for sp in specs if not sp['id'].startswith('c02L_')] + ctx.specs(cov)
     have = {sp['id']: o for sp, o in zip(specs, res)}
     todo = [sp for sp in pool if sp['id'] not in have]
